@@ -23,6 +23,8 @@ func main() {
 	n := flag.Int("n", 100, "number of sequences")
 	replay := flag.String("replay", "", "file with one statement text per line: run them as one sequence")
 	bulkFlag := flag.Int("bulk", 0, "bulk size (0 = drawn per sequence)")
+	mode := flag.String("mode", "random", "random | pool (all sequences of at most -len statements from the fixed pool)")
+	maxLen := flag.Int("len", 3, "maximal sequence length in pool mode")
 	flag.Parse()
 	ctx := context.Background()
 	w := bufio.NewWriter(os.Stdout)
@@ -55,6 +57,49 @@ func main() {
 	}
 
 	bulks := []int{1, 2, 3, 5, 100}
+	runSeq := func(id, bulk int, fixed []VStmt, nprefix int) {
+		st := memory.NewStore()
+		b := NewBlanks()
+		g := &Gen{R: rnd, B: b}
+		seq := Seq{ID: id, Bulk: bulk}
+		for j, s := range fixed {
+			if s.Kind == "construct" || s.Kind == "select" {
+				s.Q = g.Query(ctx, st, s.Ins, s.WB, s.Note)
+			}
+			r := Execute(ctx, st, s.Text, bulk)
+			obs := &Observed{Class: r.Class, Err: r.Err}
+			obs.After = Listing(ctx, st, b)
+			s.Obs = obs
+			if j >= nprefix || id == 0 {
+				seq.Stmts = append(seq.Stmts, s)
+			} else {
+				// the prefix is executed but reported only once (sequence 0); later sequences start from its result
+				seq.Prev = obs.After
+			}
+		}
+		enc.Encode(seq)
+	}
+	if *mode == "pool" {
+		// every sequence of at most 3 statements of the pool, each from the prefix store
+		b0 := NewBlanks()
+		prefix, pool := PoolPrefix(b0), Pool(b0)
+		id := 0
+		var rec func(cur []VStmt, depth int)
+		rec = func(cur []VStmt, depth int) {
+			if len(cur) > 0 {
+				runSeq(id, bulks[id%len(bulks)], append(append([]VStmt{}, prefix...), cur...), len(prefix))
+				id++
+			}
+			if depth == *maxLen {
+				return
+			}
+			for _, s := range pool {
+				rec(append(append([]VStmt{}, cur...), s), depth+1)
+			}
+		}
+		rec(nil, 0)
+		return
+	}
 	for i := 0; i < *n; i++ {
 		st := memory.NewStore()
 		b := NewBlanks()
